@@ -2,8 +2,8 @@
    and the rational operations the (unverified) oracle helpers in the driver use. *)
 Require Extraction.
 Require Import ExtrOcamlBasic.
-From Adapt Require Import Num.Qaux Vpsc.VpscSpec Vpsc.KKT Vpsc.Feas Vpsc.VpscModel Vpsc.VpscInv Vpsc.VpscInvB.
+From Adapt Require Import Num.Qaux Vpsc.VpscSpec Vpsc.KKT Vpsc.Feas Vpsc.VpscModel Vpsc.VpscInv Vpsc.VpscInvB Vpsc.VpscModelW.
 Extraction "c01_model.ml"
   kkt_ok kkt_gap sat_or_flagged detect obj place_of
-  init step step_chk all_invb inv_mask bookb actb forestb trichotomyb statsb stats_liveb stats_adb blistb final_positions blk_of act_of uns_of tie scons svars act_invb
+  init step step_chk step_w step_w_chk all_invb_w stats_posb all_invb inv_mask bookb actb forestb trichotomyb statsb stats_liveb stats_adb blistb final_positions blk_of act_of uns_of tie scons svars act_invb
   Qplus Qminus Qmult Qdiv Qopp Qred Qle_bool Qeq_bool Qcompare.
